@@ -8,11 +8,12 @@
 #include <algorithm>
 extern "C" {
 #include <constraints.h>
+#include <asn_SET_OF.h>
 }
 
 namespace {
 
-const Syntax DEC_SYNTAXES[] = {SY_DER, SY_OER, SY_XER, SY_UPER};
+const Syntax DEC_SYNTAXES[] = {SY_DER, SY_OER, SY_XER, SY_UPER, SY_BER};   // SY_BER: a seeded BER variant of the DER encoding (segmented strings, indefinite lengths)
 const Syntax ENC_SYNTAXES[] = {SY_DER, SY_OER, SY_UPER, SY_XER, SY_CXER};
 
 struct Subject {
@@ -43,6 +44,10 @@ static uint64_t fp_hash(const Fingerprint &f) {
 static int null_sink(const void *, size_t, void *) { return 0; }
 // output callback that starts failing at its k-th invocation (and keeps failing): the encode then fails half-way, and
 // whatever temporaries the encoder held at that point must still be released
+// application-side per-element free callback of a SET OF / SEQUENCE OF (asn_SET_OF.h: list.free): a probe that only records
+// whether it was handed an element that is no longer allocated (i.e. that the library had released already)
+static unsigned g_probe_calls, g_probe_on_released;
+static void list_free_probe(void *el) { g_probe_calls++; if(!sim_alloc_is_live(el)) g_probe_on_released++; }
 struct FailSink { long k; long calls = 0; bool fired = false; uint64_t h = 0xcbf29ce484222325ULL; };
 static int fail_sink(const void *b, size_t n, void *key) {
     FailSink *f = (FailSink *)key;
@@ -77,6 +82,7 @@ static Verdict exec_history(const Subject &s, const std::vector<Op> &ops, const 
     bool diverged = false;
     unsigned fired = 0;
     unsigned sink_fired = 0;
+    g_probe_calls = g_probe_on_released = 0;
     const size_t ssize = struct_size_of(s.td);
     if(s.caller_mode && ssize) { slot = sim_alloc_tracked(ssize); st = S_FRESH; }
     auto fail = [&](int j, const std::string &cls, const std::string &detail, const std::string &site = "") {
@@ -168,6 +174,11 @@ static Verdict exec_history(const Subject &s, const std::vector<Op> &ops, const 
             if(v.violated) break;
             st = S_DONE;
             if(after_reset) G.add("c14.fired.decode_into_reset_structure");
+        } else if(op.name == "listfree") {
+            if(!slot) continue;
+            unsigned nl = 0;
+            walk(s.td, slot, [&](const Node &n) { Kind k = kind_of(n.td); if(k == K_SET_OF || k == K_SEQUENCE_OF) { _A_SET_FROM_VOID(n.ptr)->free = reinterpret_cast<decltype(_A_SET_FROM_VOID(n.ptr)->free)>(list_free_probe);  /* the C library calls it with the element pointer by value */ nl++; } return true; }, 5000);
+            rec.ran = true; if(nl) G.add("c14.fired.list_free_callback_installed");
         } else if(op.name == "reset") {
             if(!slot) continue;
             bool okc = libcall([&] { ASN_STRUCT_RESET(*s.td, slot); });
@@ -273,6 +284,8 @@ static Verdict exec_history(const Subject &s, const std::vector<Op> &ops, const 
     }
     sim_alloc_fail_at(-1, 0); sim_alloc_fail_at2(-1);
     sim_alloc_free_all_live();
+    if(!v.violated && g_probe_on_released) { v.violated = true; v.cls = "free-callback-on-released-element"; v.site = kind_name(kind_of(s.td)); v.at_op = (int)ops.size();
+        v.detail = "the list's per-element free callback was handed " + L((long)g_probe_on_released) + " element(s) the library had already released"; }
     if(sink_fired) G.add("c14.fired.sink_failure", sink_fired);
     if(fired_out) *fired_out = fired;
     return v;
@@ -308,6 +321,11 @@ static bool prepare_subject(Subject &s, void *value) {
         if(e.out.size() > (s.value_spec.rfind("bulk:", 0) == 0 ? 100000u : 16384u)) continue;   // big encodings only for the one-payload values (few allocations)
         s.enc[sy] = e.out;
     }
+    if(s.enc.count(SY_DER)) {      // decoder paths that only non-DER input reaches: constructed strings, indefinite lengths, alternative primitive forms
+        BerHints hints; ber_collect_hints(s.td, value, hints);
+        Bytes var; VariantStats vs; Rng rv(hash_str(s.value_spec) ^ 0xbe5);
+        if(ber_variant(s.enc[SY_DER], rv, var, vs, &hints) && var.size() <= 16384) s.enc[SY_BER] = var;
+    }
     // reference: fresh decode of each valid encoding
     for(auto &kv : s.enc) {
         Syntax sy = (Syntax)kv.first;
@@ -330,10 +348,12 @@ static std::vector<Op> gen_history(const Subject &s, Rng &r, const Bytes *other)
     auto pick_stream = [&]() { for(int i = 0; i < 8; i++) { Syntax sy = pick(); if(sy != SY_UPER) return sy; } return have[0]; };
     auto enc_sy = [&]() { return ENC_SYNTAXES[r.below(5)]; };
     unsigned len = 2 + (unsigned)r.below(6);
+    const bool has_lists = reaches_kind(s.td, K_SET_OF) || reaches_kind(s.td, K_SEQUENCE_OF);
     State st = s.caller_mode ? S_FRESH : S_NULL;
     bool have_slot = s.caller_mode;
     for(unsigned i = 0; i < len; i++) {
         unsigned c = (unsigned)r.below(100);
+        if((st == S_PARTIAL || st == S_DONE) && has_lists && r.chance(1, 10)) { ops.push_back(mkop("listfree")); continue; }   // the application installs list.free
         if(st == S_NULL || st == S_FRESH) {
             if(c < 40 && !have.empty()) {
                 Syntax sy = pick_stream();
